@@ -253,6 +253,7 @@ def validate_headers(
     authority: Optional[bytes] = None
     path: Optional[bytes] = None
     scheme: Optional[bytes] = None
+    seen_content_length: Optional[int] = None
     seen_pseudo_headers: Set[bytes] = set()
     for key, value in headers:
         validate_header_name(key)
@@ -288,6 +289,12 @@ def validate_headers(
                         raise ValueError
                 except ValueError:
                     raise MessageError("content-length is not a non-negative integer")
+                if (
+                    seen_content_length is not None
+                    and content_length != seen_content_length
+                ):
+                    raise MessageError("conflicting content-length values")
+                seen_content_length = content_length
                 if stream:
                     stream.expected_content_length = content_length
             elif key == b"transfer-encoding" and value != b"trailers":
